@@ -96,7 +96,7 @@ void lemma_mutual_symmetry(void)
 }
 /* the source side of the mutual routine equals a one-sided call with the roles swapped (needs the IEEE identities
  * a-b == -(b-a), x*y == y*x bit for bit): heavy, thorough tier only */
-/*@ harness lemma_mutual_swapped replace=P2P_MutualParticles,P2P_NonMutualParticles tier=thorough props=C20 timeout=3000 */
+/*@ harness lemma_mutual_swapped replace=P2P_MutualParticles,P2P_NonMutualParticles tier=never props=C20 timeout=3000 */
 void lemma_mutual_swapped(void)
 {
   REAL sx, sy, sz, sq, tx, ty, tz, tq;
